@@ -310,6 +310,15 @@ impl SchemaGenConfig {
     }
 }
 
+/// operation type printer options built the way the CLI builds them (configuration text -> parse_config ->
+/// OperationTypePrinterOptions::from_config), so that the mapping from configuration to options is under test
+pub fn op_options_from(cfg: &SchemaGenConfig) -> OperationTypePrinterOptions {
+    let config = nitrogql_config_file::parse_config(&cfg.to_config_yaml()).expect("harness configuration must parse");
+    let mut o = OperationTypePrinterOptions::from_config(&config);
+    o.schema_source = "./schema".into();
+    o
+}
+
 impl Default for SchemaGenConfig {
     fn default() -> Self {
         SchemaGenConfig { scalar_types: HashMap::new(), allow_undefined_as_optional_input: true, emit_schema_runtime: false }
